@@ -350,13 +350,13 @@ Section OneMessage.
     bf_incoming : c_incoming c' = c_incoming c; bf_bfp : c_bf_pkt c' = c_bf_pkt c; bf_bfm : c_bf_msg c' = c_bf_msg c;
     bf_si : c_send_interval c' = c_send_interval c; bf_ka : c_ka_interval c' = c_ka_interval c;
     bf_ot : c_out_timeout c' = c_out_timeout c; bf_lr : c_last_recv c' = c_last_recv c;
-    bf_hello : c_hello_sent c' = c_hello_sent c; bf_done : c_done c' = c_done c }.
+    bf_hello : c_hello_sent c' = c_hello_sent c }.
 
   Lemma build_packet_X c now c' r :
     SQ c -> c_status c = CONNECTED -> c_last_send c = c_last_ka c ->
     c_send_interval c < now - c_last_send c ->
     build_packet e c now = (c', r) ->
-    SQ c' /\ bframe c c' /\ c_last_send c' = c_last_ka c' /\
+    SQ c' /\ bframe c c' /\ c_last_send c' = c_last_ka c' /\ done c' = done c /\
     match r with
     | None => now - c_last_send c <= kmax c /\ c_seq_send c' = c_seq_send c /\ c_last_send c' = c_last_send c
               /\ c_pcbs c' = c_pcbs c
@@ -418,7 +418,7 @@ Section OneMessage.
         injection E1 as <- <-. injection E as <- <-.
         assert (Hp0 : c_pretry_msg c = []).
         { destruct (c_pretry_msg c) eqn:Ep; [reflexivity|]. exfalso. specialize (Hdue ltac:(discriminate)). lia. }
-        split; [|split; [constructor; reflexivity|split; [reflexivity|]]].
+        split; [|split; [constructor; reflexivity|split; [reflexivity|split; [reflexivity|]]]].
         * constructor.
           -- cbn. constructor.
           -- left. exact Hp0.
@@ -428,7 +428,7 @@ Section OneMessage.
         * cbn. repeat split; auto. intros Hd. exfalso.
           destruct Q5 as [Q5|[Q5|Q5]]; [congruence|rewrite Ho in Q5; contradiction|rewrite Hp0 in Q5; contradiction].
       + injection E1 as <- <-. injection E as <- <-.
-        split; [|split; [constructor; reflexivity|split; [exact Hls|]]].
+        split; [|split; [constructor; reflexivity|split; [exact Hls|split; [reflexivity|]]]].
         * constructor.
           -- cbn. constructor.
           -- exact Q2.
@@ -448,7 +448,7 @@ Section OneMessage.
       { assert (Hs : dset (m_seq (mk now)) (mk now) prm = [(mseq, mk now)]).
         { destruct Hprm as [->|(v & ->)]; cbn; [reflexivity|]. rewrite Z.eqb_refl. reflexivity. }
         rewrite Hs, fold_dset_mk by (right; eexists; reflexivity). destruct msgs'; reflexivity. }
-      split; [|split; [constructor; reflexivity|split; [reflexivity|]]].
+      split; [|split; [constructor; reflexivity|split; [reflexivity|split; [reflexivity|]]]].
       + constructor.
         * exact Hrem.
         * right. exact Hfold.
@@ -468,5 +468,262 @@ Section OneMessage.
       + cbn. rewrite !map_length, map_map.
         split; [reflexivity|]. split; [reflexivity|]. split; [reflexivity|]. split; [reflexivity|].
         split; [exact Hall|]. split; [reflexivity|]. split; [intros _; discriminate|reflexivity].
+  Qed.
+
+  (* ---------- what goes on the wire ---------- *)
+  Lemma wm_ok : wmsg_ok wm.
+  Proof. unfold wmsg_ok, wm, HALF in *. cbn. split; lia. Qed.
+
+  Lemma emit_X cx h ms now : c_key cx = Some k -> Forall (eq (mk now)) ms -> h_count h = len ms ->
+    h_type h = (match ms with [] => KEEP_ALIVE | _ => APP end) ->
+    exists dg, flat_map dg_of (emit cx (h, ms)) = [dg] /\ h_seq (d_hdr dg) = h_seq h /\
+               open_dgram (Some k) dg = Ok (map (fun _ => wm) ms).
+  Proof.
+    intros Hk Hms Hc Ht. unfold emit.
+    assert (Hw : map wmsg_of ms = map (fun _ => wm) ms).
+    { apply map_ext_in. intros m Hm. rewrite Forall_forall in Hms. rewrite <- (Hms m Hm). reflexivity. }
+    rewrite Hw.
+    assert (Hok : Forall wmsg_ok (map (fun _ => wm) ms)).
+    { apply Forall_forall. intros x Hx. apply in_map_iff in Hx as (y & <- & _). exact wm_ok. }
+    destruct (encode_msgs_total _ Hok) as (pl & Ep & _). rewrite Ep, Hk.
+    assert (Hnh : negb (ptype_eqb (h_type h) SERVER_HELLO) = true) by (rewrite Ht; destruct ms; reflexivity).
+    cbn [h_type]. rewrite Hnh. cbn [flat_map dg_of app].
+    eexists. split; [reflexivity|]. split; [reflexivity|].
+    unfold open_dgram. cbn [d_hdr d_body h_len h_type h_count]. rewrite Z.eqb_refl, header_eqb_refl.
+    assert (Hl : (len pl <=? len pl) && (len pl <=? len pl + 16) = true) by lia.
+    cbn [andb]. rewrite Hl. cbn [bind].
+    rewrite Hc. replace (len ms) with (len (map (fun _ : pmsg => wm) ms)) by (unfold len; rewrite map_length; reflexivity).
+    apply msgs_roundtrip; [exact Ep|]. intros m Hm. rewrite Ht.
+    destruct ms as [|m1 [|m2 r]]; try discriminate. cbn in Hm. injection Hm as <-. reflexivity.
+  Qed.
+
+  (* a datagram of the sender: it opens under k to copies of the message (none: a keep-alive) *)
+  Definition xdg (dg : dgram) : Prop := exists ws, open_dgram (Some k) dg = Ok ws /\ Forall (eq wm) ws.
+  Definition carries (dg : dgram) : Prop := exists ws, open_dgram (Some k) dg = Ok ws /\ Forall (eq wm) ws /\ ws <> [].
+
+  (* ---------- the tail of update(): packet assembly, emission, time-out sweep ---------- *)
+  (* what one update() of the sender does, as far as the joint invariant is concerned *)
+  Record xtail_eff (c : conn) (now : Z) (c' : conn) (dgs : list dgram) : Prop := {
+    xt_sq : SQ c';
+    xt_frame : bframe c c';
+    xt_ls : c_last_send c' = c_last_ka c';
+    xt_done : done c' = done c;
+    xt_emit :
+      (dgs = [] /\ now - c_last_send c <= kmax c /\ c_seq_send c' = c_seq_send c /\ c_last_send c' = c_last_send c
+       /\ forall s ks, dget s (c_pcbs c') = Some ks -> dget s (c_pcbs c) = Some ks)
+      \/ (exists dg, dgs = [dg] /\ c_seq_send c' = seq_succ (c_seq_send c) /\ c_last_send c' = now
+          /\ h_seq (d_hdr dg) = seq_succ (c_seq_send c) /\ xdg dg /\ (done c = false -> carries dg)
+          /\ forall s ks, dget s (c_pcbs c') = Some ks -> In K ks ->
+               dget s (c_pcbs c) = Some ks \/ (s = seq_succ (c_seq_send c) /\ carries dg)) }.
+
+  Lemma bframe_sess a b c : bframe a b -> same_sess b c -> bframe a c.
+  Proof.
+    intros [A1 A2 A3 A4 A5 A6 A7 A8 A9 A10 A11] [[B1 B2 B3 B4 B5 B6 B7 B8] C1 C2 C3 C4 C5 C6 C7 C8 C9].
+    constructor; congruence.
+  Qed.
+
+  Lemma tick_tail_X strict c now c1 pk c2 o2 :
+    SQ c -> c_status c = CONNECTED -> c_key c = Some k -> c_last_send c = c_last_ka c ->
+    c_send_interval c < now - c_last_send c ->
+    build_packet e c now = (c1, pk) -> check_timeout strict c1 now = (c2, o2) ->
+    xtail_eff c now c2 (match pk with Some pkt => flat_map dg_of (emit c2 pkt) | None => [] end) /\ no_emit o2.
+  Proof.
+    intros HQ Hst Hk Hls Hg E1 E2.
+    destruct (build_packet_X _ _ _ _ HQ Hst Hls Hg E1) as (Q1 & F1 & L1 & Hd1 & R1).
+    unfold check_timeout in E2.
+    destruct (timeout_loop_X _ _ _ _ _ _ Q1 E2) as (Q2 & [S2 P2 G2] & D2).
+    pose proof (timeout_loop_frame _ _ _ _ _ _ E2) as [_ N2].
+    split; [|exact N2].
+    assert (Hd : done c2 = done c).
+    { rewrite <- Hd1. destruct (done c1) eqn:Ed.
+      - unfold done in *. apply G2. exact Ed.
+      - destruct (done c2) eqn:Ed2; [|reflexivity]. specialize (D2 eq_refl). congruence. }
+    assert (Hk2 : c_key c2 = Some k).
+    { destruct S2 as [_ Kk _ _ _ _ _ _ _ _]. rewrite Kk, (bf_key _ _ F1). exact Hk. }
+    pose proof S2 as [[_ T2 T3 T4 _ _ _ _] _ _ _ _ _ _ _ _ _].
+    constructor.
+    - exact Q2.
+    - eapply bframe_sess; eassumption.
+    - congruence.
+    - exact Hd.
+    - destruct pk as [[h ms]|].
+      + destruct R1 as (A1 & A2 & A3 & A4 & A5 & A6 & A7 & A8). right.
+        destruct (emit_X c2 h ms now Hk2 A5 A4 A6) as (dg & Ed & Hs & Ho).
+        exists dg. split; [exact Ed|]. split; [congruence|]. split; [congruence|]. split; [congruence|].
+        assert (Hx : Forall (eq wm) (map (fun _ : pmsg => wm) ms)).
+        { apply Forall_forall. intros x Hx. apply in_map_iff in Hx as (y & <- & _). reflexivity. }
+        split; [eexists; split; [exact Ho|exact Hx]|].
+        assert (Hcar : ms <> [] -> carries dg).
+        { intros Hne. eexists. split; [exact Ho|]. split; [exact Hx|]. destruct ms; [contradiction|discriminate]. }
+        split; [intros Hdn; apply Hcar; apply A7; exact Hdn|].
+        intros s ks Hg2 HK. apply P2 in Hg2. rewrite A8 in Hg2. destruct ms as [|m0 ms']; [left; exact Hg2|].
+        rewrite CallbackP.dget_dset in Hg2. destruct (s =? seq_succ (c_seq_send c)) eqn:Es; [|left; exact Hg2].
+        right. split; [lia|]. apply Hcar. discriminate.
+      + destruct R1 as (A1 & A2 & A3 & A4). left. split; [reflexivity|]. split; [exact A1|]. split; [congruence|].
+        split; [congruence|]. intros s ks Hg2. apply P2 in Hg2. rewrite A4 in Hg2. exact Hg2.
+  Qed.
+
+  (* ---------- the sender receives a datagram of the (idle) peer, or junk ---------- *)
+  Lemma SQ_same c c' : c_outgoing c' = c_outgoing c -> c_pretry_msg c' = c_pretry_msg c -> c_pcbs c' = c_pcbs c ->
+    c_pretry c' = c_pretry c -> c_done c' = c_done c -> c_last_send c' = c_last_send c -> SQ c -> SQ c'.
+  Proof.
+    intros A B C D F G [Q1 Q2 Q3 Q4 Q5]. constructor; unfold done in *; rewrite ?A, ?B, ?C, ?D, ?F, ?G; assumption.
+  Qed.
+
+  Record xrecv_eff (c : conn) (dg : dgram) (c' : conn) : Prop := {
+    xr_sq : SQ c';
+    xr_core : same_core c c';
+    xr_key : c_key c' = c_key c;
+    xr_status : c_status c' = c_status c;
+    xr_hello : c_hello_sent c' = c_hello_sent c;
+    xr_pcbs : forall s ks, dget s (c_pcbs c') = Some ks -> dget s (c_pcbs c) = Some ks;
+    xr_mono : done c = true -> done c' = true;
+    xr_new : done c' = true -> done c = true \/
+               exists s ks, dget s (c_pcbs c) = Some ks /\ In K ks
+                            /\ hdr_acks (h_ack (d_hdr dg)) (h_ackbits (d_hdr dg)) s = true }.
+
+  Lemma xrecv_eff_same c dg c' : SQ c -> same_sess c c' -> c_outgoing c' = c_outgoing c -> c_pretry_msg c' = c_pretry_msg c ->
+    c_pcbs c' = c_pcbs c -> c_pretry c' = c_pretry c -> c_done c' = c_done c -> xrecv_eff c dg c'.
+  Proof.
+    intros HQ S A B C D F. pose proof S as [[S1 S2 S3 S4 S5 S6 S7 S8] T1 T2 T3 T4 T5 T6 T7 T8 T9].
+    constructor; auto.
+    - eapply SQ_same; eassumption.
+    - constructor; assumption.
+    - intros s ks. rewrite C. auto.
+    - unfold done. rewrite F. auto.
+    - unfold done. rewrite F. auto.
+  Qed.
+
+  Lemma recv_X c now dg orcs c' o :
+    SQ c -> c_key c = Some k -> (ka_dgram k dg \/ forall ms, open_dgram (Some k) dg <> Ok ms) ->
+    recv c now dg orcs = (c', o) ->
+    xrecv_eff c dg c' /\ raised o = false /\ no_emit o.
+  Proof.
+    intros HQ Hk Hd E. pose proof E as E0. apply recv_frame in E0 as [Sc Ne].
+    unfold recv in E. unfold keyless_refuses in E. rewrite Hk in E. cbn [is_some negb andb] in E.
+    assert (Hdrop : xrecv_eff c dg (c <| c_dropped := c_dropped c + 1 |>)) by (apply xrecv_eff_same; auto; sess_triv).
+    destruct (open_dgram (Some k) dg) as [ms|er] eqn:Eo.
+    2:{ injection E as <- <-. split; [exact Hdrop|]. split; [reflexivity|exact Ne]. }
+    destruct Hd as [Hd|Hd]; [|exfalso; eapply Hd; reflexivity].
+    rewrite (open_ka _ _ Hd) in Eo. injection Eo as <-.
+    destruct (bf_insert (c_bf_pkt c) (h_seq (d_hdr dg))) as [bf|er] eqn:Eb.
+    2:{ injection E as <- <-. split; [exact Hdrop|]. split; [reflexivity|exact Ne]. }
+    set (c0 := c <| c_bf_pkt := bf |> <| c_received := _ |> <| c_last_recv := now |>) in E.
+    destruct (handle_ack_bits c0 (d_hdr dg)) as [c1 o1] eqn:E1. cbn [recv_msgs] in E. injection E as <- <-.
+    assert (Q0 : SQ c0) by (eapply SQ_same; [| | | | | |exact HQ]; reflexivity).
+    unfold handle_ack_bits in E1.
+    destruct (ack_loop_X _ _ _ _ _ Q0 E1) as (Q1 & [S1 P1 G1] & D1).
+    pose proof (ack_loop_cb_only _ _ _ _ _ E1) as C1.
+    split; [|split; [|exact Ne]].
+    - destruct S1 as [_ T1 T2 T3 T4 T5 T6 T7 T8 T9]. constructor; auto.
+      + intros Hdn. unfold done in *. apply G1. exact Hdn.
+    - unfold raised. rewrite existsb_app. fold (raised o1). rewrite (cb_only_not_raised _ C1). reflexivity.
+  Qed.
+
+  (* ================= the receiver ================= *)
+  (* its message window: behind the message's number, or at it *)
+  Definition mfresh (y : conn) : Prop := bf_cur (c_bf_msg y) = 0 \/ 1 <= bf_cur (c_bf_msg y) < mseq.
+  Definition mseen (y : conn) : Prop := bf_cur (c_bf_msg y) = mseq.
+
+  Lemma bf_insert_fresh f : (bf_cur f = 0 \/ 1 <= bf_cur f < mseq) ->
+    exists f', bf_insert f mseq = Ok f' /\ bf_cur f' = mseq.
+  Proof.
+    intros H. unfold bf_insert. destruct (bf_cur f =? 0) eqn:E0; [eexists; split; reflexivity|].
+    destruct H as [H|H]; [lia|].
+    assert (Hd : seq_diff (bf_cur f) mseq = bf_cur f - mseq).
+    { unfold seq_diff. cbv zeta. unfold HALF in *. destruct (bf_cur f - mseq >? 32767) eqn:E1; [lia|].
+      destruct (bf_cur f - mseq <? - (32767)) eqn:E2; [lia|]. reflexivity. }
+    rewrite Hd. replace (bf_cur f - mseq <? 0) with true by lia. eexists; split; reflexivity.
+  Qed.
+
+  Lemma bf_insert_seen f : bf_cur f = mseq -> bf_insert f mseq = Err EDup.
+  Proof.
+    intros H. unfold bf_insert. rewrite H. replace (mseq =? 0) with false by lia.
+    assert (Hd : seq_diff mseq mseq = 0) by (unfold seq_diff, HALF; cbv zeta; rewrite Z.sub_diag; reflexivity).
+    rewrite Hd. reflexivity.
+  Qed.
+
+  Lemma recv_msgs_seen ws : forall y now orcs, Forall (eq wm) ws -> mseen y -> recv_msgs y now ws orcs = (y, []).
+  Proof.
+    induction ws as [|w ws IH]; intros y now orcs HF Hs; [reflexivity|].
+    inversion HF as [|? ? <- HF']; subst. cbn [recv_msgs w_seq wm]. rewrite (bf_insert_seen _ Hs).
+    cbn [w_type is_hs]. apply IH; assumption.
+  Qed.
+
+  Lemma recv_msgs_fresh ws y now orcs : Forall (eq wm) ws -> ws <> [] -> mfresh y ->
+    exists f', bf_insert (c_bf_msg y) mseq = Ok f' /\ bf_cur f' = mseq /\
+               recv_msgs y now ws orcs = (recv_app (y <| c_bf_msg := f' |>) mseq p, []).
+  Proof.
+    intros HF Hne Hf. destruct ws as [|w ws]; [contradiction|]. inversion HF as [|? ? <- HF']; subst.
+    destruct (bf_insert_fresh _ Hf) as (f' & Ei & Ec). exists f'. split; [exact Ei|]. split; [exact Ec|].
+    cbn [recv_msgs w_seq w_type w_payload wm]. rewrite Ei. cbn [raised existsb].
+    rewrite recv_msgs_seen; [reflexivity|exact HF'|exact Ec].
+  Qed.
+
+  Lemma recv_Y y now dg orcs ws Ky siy y' o :
+    ep_ok k Ky siy y -> open_dgram (Some k) dg = Ok ws -> Forall (eq wm) ws -> (mfresh y \/ mseen y) ->
+    recv y now dg orcs = (y', o) ->
+    raised o = false /\ no_emit o /\ ep_ok k Ky siy y' /\
+    c_seq_send y' = c_seq_send y /\ c_last_ka y' = c_last_ka y /\ c_last_send y' = c_last_send y /\
+    match bf_insert (c_bf_pkt y) (h_seq (d_hdr dg)) with
+    | Err _ => c_bf_pkt y' = c_bf_pkt y /\ c_incoming y' = c_incoming y /\ c_bf_msg y' = c_bf_msg y
+               /\ c_last_recv y' = c_last_recv y
+    | Ok bf => c_bf_pkt y' = bf /\ c_last_recv y' = now /\
+        ((ws = [] \/ mseen y) -> c_incoming y' = c_incoming y /\ c_bf_msg y' = c_bf_msg y) /\
+        (ws <> [] -> mfresh y -> c_incoming y' = c_incoming y ++ [(mseq, p)] /\ mseen y')
+    end.
+  Proof.
+    intros H Ho HF Hm E. pose proof E as E0. apply recv_frame in E0 as [[S1 S2 S3 S4 S5 S6 S7 S8] Ne].
+    unfold recv in E. pose proof (eo_key _ _ _ _ H) as Hk.
+    unfold keyless_refuses in E. rewrite Hk in E. cbn [is_some negb andb] in E. rewrite Ho in E.
+    destruct (bf_insert (c_bf_pkt y) (h_seq (d_hdr dg))) as [bf|er] eqn:Eb.
+    2:{ injection E as <- <-. split; [reflexivity|]. split; [exact Ne|].
+        split; [destruct H as [A B (Q1 & Q2 & Q3) D F G I]; constructor; cbn; auto; split; auto|]. cbn. repeat split; auto. }
+    set (c0 := y <| c_bf_pkt := bf |> <| c_received := _ |> <| c_last_recv := now |>) in E.
+    destruct (handle_ack_bits c0 (d_hdr dg)) as [c1 o1] eqn:E1.
+    destruct (recv_msgs c1 now ws orcs) as [c2 o2] eqn:E2. injection E as <- <-.
+    assert (H0 : ep_ok k Ky siy c0).
+    { destruct H as [A B (Q1 & Q2 & Q3) D F G I]. subst c0. constructor; cbn; auto. split; auto. }
+    pose proof (ack_loop_cb_only _ _ _ _ _ E1) as C1.
+    pose proof (ack_loop_q _ _ _ _ _ (eo_quiet _ _ _ _ H0) E1) as Q1.
+    apply handle_ack_bits_frame in E1 as [S N].
+    pose proof (ep_ok_sess _ _ _ _ _ S Q1 H0) as H1.
+    destruct S as [_ T1 T2 T3 T4 T5 T6 T7 T8 T9].
+    assert (Hm1 : c_bf_msg c1 = c_bf_msg y) by (rewrite T7; reflexivity).
+    assert (Hi1 : c_incoming c1 = c_incoming y) by (rewrite T8; reflexivity).
+    assert (Hcases : (c2 = c1 /\ o2 = [] /\ (ws = [] \/ mseen y)) \/
+                     (ws <> [] /\ mfresh y /\ o2 = [] /\ exists f', bf_cur f' = mseq /\ c2 = recv_app (c1 <| c_bf_msg := f' |>) mseq p)).
+    { destruct ws as [|w ws'] eqn:Ews.
+      - cbn in E2. injection E2 as <- <-. left. auto.
+      - rewrite <- Ews in *. assert (Hne : ws <> []) by (rewrite Ews; discriminate).
+        destruct Hm as [Hm|Hm].
+        + right. assert (Hf1 : mfresh c1) by (unfold mfresh; rewrite Hm1; exact Hm).
+          destruct (recv_msgs_fresh ws c1 now orcs HF Hne Hf1) as (f' & _ & Ec & Er). rewrite Er in E2. injection E2 as <- <-.
+          split; [exact Hne|]. split; [exact Hm|]. split; [reflexivity|]. exists f'. auto.
+        + left. assert (Hs1 : mseen c1) by (unfold mseen; rewrite Hm1; exact Hm).
+          rewrite (recv_msgs_seen ws c1 now orcs HF Hs1) in E2. injection E2 as <- <-. auto. }
+    assert (Hr : raised (o1 ++ o2 ++ (if raised o2 then [] else [ORet true])) = false).
+    { assert (o2 = []) as -> by (destruct Hcases as [(_ & A & _)|(_ & _ & A & _)]; exact A).
+      cbn. unfold raised. rewrite existsb_app. fold (raised o1). rewrite (cb_only_not_raised _ C1). reflexivity. }
+    split; [exact Hr|]. split; [exact Ne|].
+    destruct Hcases as [(-> & _ & Hc)|(Hne & Hf & _ & f' & Ec & ->)].
+    - split; [exact H1|]. split; [exact S2|]. split; [exact S4|]. split; [exact S3|].
+      split; [rewrite T6; reflexivity|]. split; [rewrite T3; reflexivity|]. split; [intros _; auto|].
+      intros Hne Hf. exfalso. destruct Hc as [Hc|Hc]; [contradiction|].
+      unfold mfresh, mseen in *. lia.
+    - split.
+      { destruct H1 as [A B (Q1' & Q2' & Q3') D F G I]. constructor; cbn; auto; split; auto. }
+      split; [exact S2|]. split; [exact S4|]. split; [exact S3|].
+      split; [cbn; rewrite T6; reflexivity|]. split; [cbn; rewrite T3; reflexivity|]. split.
+      + intros [Hc|Hc]; [contradiction|]. unfold mfresh, mseen in *. lia.
+      + intros _ _. cbn. rewrite Hi1. split; [reflexivity|exact Ec].
+  Qed.
+
+  (* junk: the receiver cannot open it *)
+  Lemma recv_junk c now dg orcs : c_key c = Some k -> (forall ms, open_dgram (Some k) dg <> Ok ms) ->
+    recv c now dg orcs = (c <| c_dropped := c_dropped c + 1 |>, [ORet false]).
+  Proof.
+    intros Hk Hj. unfold recv, keyless_refuses. rewrite Hk. cbn [is_some negb andb].
+    destruct (open_dgram (Some k) dg) as [ms|] eqn:Eo; [exfalso; eapply Hj; reflexivity|reflexivity].
   Qed.
 End OneMessage.
